@@ -494,11 +494,17 @@ namespace awkward {
       contiguous_self.dtype(),
       ptr_lib_);
     for (int64_t i = (int64_t)shape_.size() - 1;  i > 0;  i--) {
+      // the length of this level is the product of all outer dimensions
+      // (it only matters when shape_[i] == 0)
+      int64_t zeros_length = 1;
+      for (int64_t j = 0;  j < i;  j++) {
+        zeros_length *= (int64_t)shape_[(size_t)j];
+      }
       out = std::make_shared<RegularArray>(Identities::none(),
                                            util::Parameters(),
                                            out,
                                            shape_[(size_t)i],
-                                           shape_[(size_t)(i - 1)]);
+                                           zeros_length);
     }
     return out;
   }
